@@ -129,6 +129,12 @@ func runTurn(in term.T) term.T {
 func genTurn(r *term.Rng, idx int) term.T {
 	nu := r.Range(2, 8)
 	speedPool := []float64{90, 100, 100, 101, 120, 134, 160, 99.5, 250, 1, 500, 133.4}
+	if r.Chance(1, 6) {
+		// a large battle with many ties: sort.Sort is a stable insertion sort only up to 12 elements, so
+		// the documented tie order needs sort.Stable here
+		nu = r.Range(13, 24)
+		speedPool = []float64{100, 100, 100, 120, 120, 90}
+	}
 	ops := []term.T{}
 	members := []int64{}
 	next := int64(1)
